@@ -11,7 +11,8 @@ From Coq Require Import List NArith Bool.
 Import ListNotations.
 Open Scope N_scope.
 
-Record file := { actual : N; recorded : N; orig : N; disabled : bool }.
+(* [unknown]: the checksum record cannot be used -- not JSON, no or unknown checksum type, malformed value *)
+Record file := { actual : N; recorded : N; orig : N; disabled : bool; unknown : bool }.
 
 Record store := {
   files : list file;            (* every data file of every snapshot directory *)
@@ -20,7 +21,11 @@ Record store := {
 }.
 
 (* ChecksummedFile.Check *)
-Definition fcheck (f : file) : bool := disabled f || (actual f =? recorded f).
+(* ChecksummedFile.Check; a record that cannot be used fails the catalog scan, hence every check *)
+Definition fcheck (f : file) : bool := negb (unknown f) && (disabled f || (actual f =? recorded f)).
+
+(* SnapshotCatalog.Scan -> loadSnapshot -> NewChecksummedFileFromFiles: every record must load *)
+Definition scan_ok (s : list file) : bool := forallb (fun f => negb (unknown f)) s.
 
 (* ensureVerified: checkCRCs over every file, at most once per process *)
 Definition ensure_verified (s : store) : store * bool :=
@@ -53,7 +58,8 @@ Fixpoint remove_ids (l : list file) (pos : nat) (ids : list nat) : list file :=
 
 Inductive event :=
 | ECorruptData (i : nat) (v : N)       (* bytes of file i change; its checksum becomes v *)
-| ECorruptSidecar (i : nat) (v : N)    (* the sidecar of file i now records v *)
+| ECorruptSidecar (i : nat) (v : N)    (* the sidecar of file i is a well-formed record of checksum v *)
+| ECorruptRecord (i : nat)             (* the sidecar of file i is no longer a usable record *)
 | EOpen (ids : list nat)               (* Store.Open of a snapshot resolving to files ids, streamed to a
                                           receiver: another node's sink, or Restore *)
 | EReap (ids gone : list nat) (v : N)  (* a consolidating reap of files ids, which also deletes the files gone
@@ -70,30 +76,38 @@ Definition step (s : store) (e : event) : store * outcome :=
   match e with
   | ECorruptData i v =>
     match nth_error (files s) i with
-    | Some f => ({| files := set_nth (files s) i {| actual := v; recorded := recorded f; orig := orig f; disabled := disabled f |};
+    | Some f => ({| files := set_nth (files s) i {| actual := v; recorded := recorded f; orig := orig f; disabled := disabled f; unknown := unknown f |};
                     verified := verified s; plan := plan s |}, Done)
     | None => (s, Done)
     end
   | ECorruptSidecar i v =>
     match nth_error (files s) i with
-    | Some f => ({| files := set_nth (files s) i {| actual := actual f; recorded := v; orig := orig f; disabled := disabled f |};
+    | Some f => ({| files := set_nth (files s) i {| actual := actual f; recorded := v; orig := orig f; disabled := disabled f; unknown := unknown f |};
+                    verified := verified s; plan := plan s |}, Done)
+    | None => (s, Done)
+    end
+  | ECorruptRecord i =>
+    match nth_error (files s) i with
+    | Some f => ({| files := set_nth (files s) i {| actual := actual f; recorded := recorded f; orig := orig f; disabled := disabled f; unknown := true |};
                     verified := verified s; plan := plan s |}, Done)
     | None => (s, Done)
     end
   | EOpen ids =>
     let '(s1, ok) := ensure_verified s in
     if negb ok then (s1, Refused) else
+    if negb (scan_ok (files s1)) then (s1, Refused) else      (* getSnapshots fails *)
     let fs := pick (files s1) ids in
     if receiver_accepts fs then (s1, Used fs) else (s1, Refused)
   | EReap ids gone v =>
     let '(s1, ok) := ensure_verified s in
     if negb ok then (s1, Refused) else
+    if negb (scan_ok (files s1)) then (s1, Refused) else
     let fs := pick (files s1) ids in
     (* the fix: verify what is about to be consumed -- BEFORE the plan is written, so a refusal
        leaves nothing behind *)
     if negb (forallb fcheck fs) then (s1, Refused) else
     (* write REAP_PLAN, execute it, remove it *)
-    ({| files := {| actual := v; recorded := v; orig := v; disabled := false |} :: remove_ids (files s1) 0 (ids ++ gone);
+    ({| files := {| actual := v; recorded := v; orig := v; disabled := false; unknown := false |} :: remove_ids (files s1) 0 (ids ++ gone);
         verified := verified s1; plan := false |}, Used fs)
   | ERestart => ({| files := files s; verified := None; plan := plan s |}, Done)
   end.
@@ -106,7 +120,7 @@ Fixpoint run (s : store) (es : list event) : store * list outcome :=
 
 (* a store whose n files are as written *)
 Definition fresh (crcs : list N) : store :=
-  {| files := map (fun c => {| actual := c; recorded := c; orig := c; disabled := false |}) crcs; verified := None; plan := false |}.
+  {| files := map (fun c => {| actual := c; recorded := c; orig := c; disabled := false; unknown := false |}) crcs; verified := None; plan := false |}.
 
 (* ---------------------------------------------------------------- correspondence interface *)
 (* observed per event: 0 = not a consumer, 1 = the consumer succeeded, 2 = it failed; plus 10 when
